@@ -146,3 +146,15 @@ Definition selector_call (choose : nat -> list Z -> Z -> list Z)
   | None => None
   | Some kept => select choose times clusters kept n sub_chunks sub req
   end.
+
+(* TemplateModel.save_spikes_subset_waveforms (phylib/io/model.py): the spike ids written to
+   _phy_spikes_subset.spikes.npy.  spt = _spikes_per_cluster(spike_templates); template_ids =
+   sorted(spt.keys()); SpikeSelector(..., spike_times=spike_samples, chunk_bounds=traces.chunk_bounds,
+   n_chunks_kept=20)(max_n_spikes_per_template, template_ids, subset_chunks=True).
+   None = `assert nst > 0` fails. *)
+Definition n_chunks_kept_route : Z := 20.
+Definition route (choose : nat -> list Z -> Z -> list Z)
+    (samples templates grid : list Z) (nst : Z) : option (list Z) :=
+  if nst <=? 0 then None
+  else selector_call choose samples templates grid n_chunks_kept_route (Some nst)
+                     (unique templates) true None.
